@@ -5,6 +5,7 @@ import RosuModel.Lemmas.GradualTaikoNth
 import RosuModel.Model.Builder
 import RosuModel.Model.MapOrAttrs
 import RosuModel.Gen.GradualPerf
+import RosuModel.Gen.GradualCtor
 
 /-!
 # C03 — gradual performance equals performance of the partial play
@@ -270,5 +271,21 @@ example :
 example :
     (gradualBuilder "Osu" 1 { Diff.new with lazer := some false } 5 [9, 1, 2, 3, 4, 5, 6, 7] true).difficulty =
       { Diff.new with lazer := some false, passed := some 5 } := by decide
+
+/-! ## Construction (generated) -/
+
+/-- `…GradualPerformance::new(difficulty, map)` of every mode only builds the mode's gradual
+*difficulty* calculator from the very same `Difficulty` and map (so the map preparation is the one
+of C02: `gradual_applies_same_mods_as_difficulty`, `gradual_reads_same_settings`) and stores it;
+osu! additionally remembers `difficulty.get_lazer()`, the value its `nth` hands back to the
+performance builder.  Re-extracted from src/<mode>/performance/gradual.rs on every run. -/
+theorem gradual_perf_new_wraps_gradual_difficulty :
+    Rosu.Gen.GradualCtor.gradualPerfNew =
+      [("Osu", ["let lazer=difficulty.get_lazer()", "let difficulty=MODEGradualDifficulty::new(difficulty,map)?",
+                "Ok(Self{lazer,difficulty})"]),
+       ("Taiko", ["let difficulty=MODEGradualDifficulty::new(difficulty,map)?", "Ok(Self{difficulty})"]),
+       ("Catch", ["let difficulty=MODEGradualDifficulty::new(difficulty,map)?", "Ok(Self{difficulty})"]),
+       ("Mania", ["let difficulty=MODEGradualDifficulty::new(difficulty,map)?", "Ok(Self{difficulty})"])] ∧
+    Rosu.Gen.GradualCtor.ctorUnknown = [] := by decide
 
 end Rosu.GradualPerf
